@@ -151,3 +151,33 @@ theorem run_inv (f t first : Nat) (evs : List Ev) : Inv f t first (blockCount ev
   · exact h
 
 end BtcVerif.Model.Reorder
+
+namespace BtcVerif.Model.Reorder
+open BtcVerif.Gen.Guards
+
+/-- the block of height `fromHeight + k` of an honest chain whose first block has hash 1 -/
+def honest (k : Nat) : Blk := ⟨k + 1, k⟩
+
+/-- one honest block arriving in its turn, with nothing buffered: it is handed out at once -/
+theorem iter_in_turn (f t j : Nat) (out : List Blk) (hj : f + j < t) :
+    iter t { latest := j + 1, cur := f + j, buf := [], out := out, res := .running } (.blk (honest (j + 1))) =
+      { latest := j + 2, cur := f + (j + 1), buf := [], out := out ++ [honest (j + 1)], res := .running } := by
+  simp [iter, blockscan_BlockScanner_streamBlocks_lit0_1, blockscan_BlockScanner_streamBlocks_lit0_2,
+    blockscan_BlockScanner_streamBlocks_lit0_4, blockscan_BlockScanner_streamBlocks_lit0_5, hj, insert, release,
+    lookup, delete, honest, Nat.add_assoc]
+
+theorem foldl_in_order (f t : Nat) : ∀ (n j : Nat) (out : List Blk), f + j + n ≤ t →
+    ((List.range' (j + 1) n).map (fun k => Ev.blk (honest k))).foldl (iter t)
+        { latest := j + 1, cur := f + j, buf := [], out := out, res := .running } =
+      { latest := j + n + 1, cur := f + (j + n), buf := [], out := out ++ (List.range' (j + 1) n).map honest, res := .running }
+  | 0, j, out, _ => by simp
+  | n + 1, j, out, h => by
+    have hj : f + j < t := by omega
+    simp only [List.range'_succ, List.map_cons, List.foldl_cons]
+    rw [iter_in_turn f t j out hj]
+    have ih := foldl_in_order f t n (j + 1) (out ++ [honest (j + 1)]) (by omega)
+    simp only [Nat.add_assoc] at ih ⊢
+    rw [ih]
+    simp [Nat.add_comm, Nat.add_left_comm, List.append_assoc]
+
+end BtcVerif.Model.Reorder
